@@ -127,6 +127,23 @@ func cli_patBytes(seed, n int) []byte {
 	return b
 }
 
+// cliSizeUpdateLen is the length of the dynamic table size update p starts with, 0 if it does not start with a
+// complete one (RFC 7541 6.3: pattern 001, 5-bit prefix integer).
+func cliSizeUpdateLen(p []byte) int {
+	if len(p) == 0 || p[0]&0xe0 != 0x20 {
+		return 0
+	}
+	if p[0]&0x1f != 0x1f {
+		return 1
+	}
+	for i := 1; i < len(p) && i < 7; i++ {
+		if p[i]&0x80 == 0 {
+			return i + 1
+		}
+	}
+	return 0
+}
+
 func cliErrName(err error) string {
 	if err == nil {
 		return "ok"
@@ -305,6 +322,20 @@ func (cc *cliConn) frameTok(f rawFrame) tok {
 			p = p[5:]
 		}
 		cc.fields = cc.fields[:0]
+		// RFC 7541 4.2 allows two dynamic table size updates at the start of a block: the smallest size since
+		// the last block, then the final one. x/net's decoder (v0.56.0 hpack.go:276) takes the first update for
+		// "the first field" and refuses a second one unless its table is empty, so each leading update (two at
+		// most) is handed to it as a block of its own: that does to its table exactly what the update says.
+		for lead := 0; lead < 2; lead++ {
+			n := cliSizeUpdateLen(p)
+			if n == 0 || n >= len(p) {
+				break
+			}
+			if _, err := cc.hdec.Write(p[:n]); err != nil || cc.hdec.Close() != nil {
+				break
+			}
+			p = p[n:]
+		}
 		_, err := cc.hdec.Write(p)
 		if err == nil && f.flags&0x4 != 0 {
 			err = cc.hdec.Close()
